@@ -133,4 +133,46 @@ EllipseContainsT(tl, sz, p) ==
       qx == 2 * p[1] - (2 * tl[1] + SatSubU(w, 1))  qy == 2 * p[2] - (2 * tl[2] + SatSubU(h, 1))
       x == qx * qx  y == qy * qy IN
   IF a = b THEN x + y < th ELSE b * x + a * y < th
+
+\* rounded_rectangle/corner_radii.rs CornerRadii::confine (after the D13 repair): scale by the side with the
+\* largest relative overlap.  rad = << tl, tr, br, bl >>, each <<w, h>>; returns the confined radii
+ConfineT(rad, size) ==
+  LET cands == << <<rad[1][1] + rad[2][1], size[1]>>, <<rad[2][2] + rad[3][2], size[2]>>,
+                  <<rad[4][1] + rad[3][1], size[1]>>, <<rad[1][2] + rad[4][2], size[2]>> >>
+      \* fold over the four sides: acc = <<size, corner_size>>
+      Step(acc, c) == IF c[1] > c[2] /\ (acc[2] = 0 \/ c[1] * acc[1] > acc[2] * c[2]) THEN <<c[2], c[1]>> ELSE acc
+      sel == Step(Step(Step(Step(<<0, 0>>, cands[1]), cands[2]), cands[3]), cands[4])
+      Sc(r) == <<(r[1] * sel[1]) \div sel[2], (r[2] * sel[1]) \div sel[2]>>
+  IN IF sel[2] > 0 THEN <<Sc(rad[1]), Sc(rad[2]), Sc(rad[3]), Sc(rad[4])>> ELSE rad
+\* rounded_rectangle/ellipse_quadrant.rs: corner c (1 tl, 2 tr, 3 br, 4 bl) of rectangle b with confined radii
+QuadrantContainsT(b, rad, c, p) ==
+  LET cb == CornerBoxes(b, rad)[c]  ce == CornerEllipses(b, rad)[c] IN
+  EllipseContainsT(<<ce[1], ce[2]>>, <<ce[3], ce[4]>>, p)
+\* rounded_rectangle/mod.rs RoundedRectangleContains::contains (after the D18 repair: every corner whose box
+\* contains the point must accept it)
+RRContainsT(b, rad0, p) ==
+  LET rad == ConfineT(rad0, <<b[3], b[4]>>)
+      cb == CornerBoxes(b, rad)
+      slStart == b[2] + rad[1][2]  slEnd == b[2] + b[4] - rad[4][2]      \* straight_rows_left
+      srStart == b[2] + rad[2][2]  srEnd == b[2] + b[4] - rad[3][2]      \* straight_rows_right
+  IN /\ InRect(b, p)
+     /\ ~(p[2] < slStart /\ p[1] < cb[1][1] + cb[1][3] /\ ~QuadrantContainsT(b, rad, 1, p))
+     /\ ~(p[2] < srStart /\ p[1] >= cb[2][1] /\ ~QuadrantContainsT(b, rad, 2, p))
+     /\ ~(p[2] >= slEnd /\ p[1] < cb[4][1] + cb[4][3] /\ ~QuadrantContainsT(b, rad, 4, p))
+     /\ ~(p[2] >= srEnd /\ p[1] >= cb[3][1] /\ ~QuadrantContainsT(b, rad, 3, p))
+\* rounded_rectangle/points.rs Scanlines::next for row y (after the D6 repair): <<y, x_start, x_end (exclusive)>>
+RRScanlineT(b, rad0, y) ==
+  LET rad == ConfineT(rad0, <<b[3], b[4]>>)
+      cb == CornerBoxes(b, rad)
+      slStart == b[2] + rad[1][2]  slEnd == b[2] + b[4] - rad[4][2]
+      srStart == b[2] + rad[2][2]  srEnd == b[2] + b[4] - rad[3][2]
+      FirstIn(c, lo, hi) == LET hs == { x \in lo..(hi - 1) : QuadrantContainsT(b, rad, c, <<x, y>>) } IN
+                            IF hs = {} THEN hi ELSE CHOOSE m \in hs : \A z \in hs : m <= z
+      LastIn(c, lo, hi)  == LET hs == { x \in lo..(hi - 1) : QuadrantContainsT(b, rad, c, <<x, y>>) } IN
+                            IF hs = {} THEN lo ELSE (CHOOSE m \in hs : \A z \in hs : m >= z) + 1
+      xs == IF y < slStart THEN FirstIn(1, b[1], cb[1][1] + cb[1][3])
+            ELSE IF y >= slEnd THEN FirstIn(4, b[1], cb[4][1] + cb[4][3]) ELSE b[1]
+      xe == IF y < srStart THEN LastIn(2, cb[2][1], b[1] + b[3])
+            ELSE IF y >= srEnd THEN LastIn(3, cb[3][1], b[1] + b[3]) ELSE b[1] + b[3]
+  IN <<y, xs, xe>>
 =============================================================================
